@@ -627,6 +627,12 @@ theorem stF_snap (s : Fw σ) : (fun j => match s.snap.rts[j]? with | some r => r
   simp only [List.getElem?_map]
   cases s.rt[j]? <;> rfl
 
+theorem stOf_snap (s : Fw σ) : LL.stOf s.snap = stF s := by
+  funext j
+  unfold LL.stOf stF Fw.snap
+  simp only [List.getElem?_map]
+  cases s.rt[j]? <;> rfl
+
 theorem go08_nil (t : FwTrace) (i : Nat) (prev : Snap) : C08.monitor.go t i prev [] = none := by
   rw [C08.monitor.go]
 
